@@ -2,7 +2,7 @@ import RTV.Drv.Proto
 import RTV.Model.WellFormed
 /-! Driver handlers for the C10/C11 spec predicates.
   wf <typeName cps> <n> (<type> <timex> <value|?> <start|?> <end|?>)*
-      -> `<typeNameOK>` then per value ` <shapeOK><definiteOK><tripleOK>` (bits)
+      -> `<typeNameOK>` then per value ` <shapeOK><definiteOK><tripleOK><sentinelOK>` (bits)
   fmtdate y m d -> cps ; fmttime h m s -> cps ; tspan secs -> cps -/
 namespace RTV.Drv
 open RTV.WF RTV.Cal
@@ -21,7 +21,7 @@ def dispatchWF (op : String) (args : List String) : Option String :=
   | "wf", tn :: n :: rest =>
     let vs := takeValues (parseNat n) rest
     let head := bit (typeNameOK (parseCps tn) vs)
-    some (head ++ String.join (vs.map fun v => " " ++ bit (shapeOK v) ++ bit (definiteOK v) ++ bit (tripleOK v.timex v.start v.stop)))
+    some (head ++ String.join (vs.map fun v => " " ++ bit (shapeOK v) ++ bit (definiteOK v) ++ bit (tripleOK v.timex v.start v.stop) ++ bit (sentinelOK v)))
   | "fmtdate", [y, m, d] => some (showCps (formatDate ⟨parseNat y, parseNat m, parseNat d⟩))
   | "fmttime", [h, m, s] => some (showCps (formatTime (parseNat h) (parseNat m) (parseNat s)))
   | "fmtdt", [y, mo, d, h, m, s] => some (showCps (formatDateTime ⟨parseNat y, parseNat mo, parseNat d⟩ (parseNat h) (parseNat m) (parseNat s)))
